@@ -248,6 +248,68 @@ def run(chk):
                 continue
             emit(full, build.expand_mul(Expr(res2.sympy, **res2.assumptions)),
                  f"itmd:factor:special:{label}", what, tsyms)
+    # (e) long intermediates with mixed prefactors: the fully expanded form of
+    #     t2_2 (6 terms) x remainder with the prefactor of ONE term changed,
+    #     and with the remainder's own summation index named differently
+    from sympy import Add as _Add, Rational as _R
+    Wr = AntiSymmetricTensor("Wq", (c,), (d,), 0)
+    mixed_sources = [
+        ("V*t2_2", AntiSymmetricTensor(tn.eri, (i, j), (a, b), 1) *
+         t22.tensor("klcd").sympy, [i, j, k, l, a, b, c, d]),
+        ("t2_2*Y", t22.tensor("ijab").sympy * Y2, []),
+        ("t2_2*W*Y", t22.tensor("ijab").sympy * Wr *
+         Amplitude(tn.right_adc_amplitude, (a, c), (i, j)), [b, d]),
+    ]
+    # the intermediate's indices intersect with the remainder: terms of the
+    # definition merge (prefactor 2) after simplification
+    mixed_sources += [
+        ("V*t2_2 occ intersect", AntiSymmetricTensor(tn.eri, (i, j), (a, b), 1) *
+         t22.tensor("ijcd").sympy, [a, b, c, d]),
+        ("V*t2_2 occ+virt intersect", AntiSymmetricTensor(tn.eri, (i, j), (a, b), 1) *
+         t22.tensor("ijab").sympy, []),
+    ]
+    from adcgen.simplify import simplify as _simplify
+    for label, sym_expr, tsyms in (mixed_sources if not quick else
+                                   mixed_sources[:1] + mixed_sources[3:4]):
+        x = Expr(sym_expr, real=True, target_idx=tsyms)
+        res, exc = guarded(x.expand_intermediates, True)
+        if exc:
+            continue
+        full = build.expand_mul(Expr(res.sympy, **res.assumptions))
+        if "intersect" in label:
+            merged, exc = guarded(lambda: _simplify(
+                Expr(full.sympy, **full.assumptions).use_symbolic_denominators()
+            ).use_explicit_denominators())
+            if exc:
+                continue
+            full = build.expand_mul(Expr(merged.sympy, **merged.assumptions))
+        terms_ = list(full.sympy.args) if isinstance(full.sympy, _Add) \
+            else [full.sympy]
+        if len(terms_) < 3:
+            continue
+        variants = [(1, _R(1, 2)), (0, 2), (len(terms_) - 1, -1)]
+        if "intersect" in label:
+            # every term once with a smaller and once with a larger prefactor
+            variants = [(p_, f_) for p_ in range(len(terms_))
+                        for f_ in (_R(1, 2), 2)]
+        for pos, fac in variants:
+            mod = list(terms_)
+            mod[pos] = mod[pos] * fac
+            fx = Expr(_Add(*mod), **full.assumptions)
+            pre_ = Expr(fx.sympy, **fx.assumptions)
+            what = (f"factor_intermediates(<fully expanded {label}, term "
+                    f"{pos} scaled by {fac}>, ['t2_2'])")
+            res2, exc = guarded(factor_intermediates, fx, ["t2_2"])
+            chk.count("factor_calls")
+            if exc:
+                if exc.get("timeout") or exc["type"] == "NotImplementedError":
+                    chk.count("refused_or_timeout")
+                else:
+                    chk.report_direct("itmd:factor:exception", f"{what} raised "
+                                      f"{exc['type']}: {exc['msg']}", exc)
+                continue
+            emit(pre_, build.expand_mul(Expr(res2.sympy, **res2.assumptions)),
+                 f"itmd:factor:mixed-prefactor:{label}", what, tsyms)
     evs = list(chk.events)
     for i in range(0, len(evs), 40):
         chk.judge_with_header(header, evs[i:i + 40])
